@@ -1,7 +1,7 @@
 ---------------------------- MODULE VOTraceTree ----------------------------
 (* Trace validation of VOGP_AD runs (C18, and the run-level clauses of C06 for this algorithm).  The specification
    rebuilds the tree (cells, depths) from the logged refinements and judges every run_one_step().                  *)
-EXTENDS VOTreeOps, Json, IOUtils
+EXTENDS VOTreeOps, VOAlgo, Json, IOUtils
 Traces == ndJsonDeserialize(IOEnv.TRACE_FILE)
 VARIABLES tid, l, cells, depth, gone
 vars == <<tid, l, cells, depth, gone>>
@@ -44,7 +44,13 @@ Clauses(T, e) ==
                   /\ ((e.post.gate /\ ~e.pre.gate) => \A i \in S1 : depth[i] = T.maxdepth),
     round     |-> e.post.round = e.pre.round + 1,
     samples   |-> e.post.samples = e.pre.samples + e.rows /\ (par # 0 => e.rows = 0) /\ ((par = 0 /\ postS # {}) => e.rows = 1),
-    ret       |-> e.ret = (e.post.S = <<>>) ]
+    ret       |-> e.ret = (e.post.S = <<>>),
+    \* the decisions of the round against the relations of the displayed regions (C02 / C03 for VOGP_AD): discarded exactly on an
+    \* eps-slack certificate with a pessimistic witness; declared exactly when uncovered and the gate is open.  Non-robust pairs: existential.
+    sets      |-> IF e.skipsets THEN TRUE ELSE
+                  \E xa \in SUBSET ToSet(e.amb.a) : \E xb \in SUBSET ToSet(e.amb.b) : \E xc \in SUBSET ToSet(e.amb.c) :
+                     LET x == VogpStep(preS, preP, ToSet(e.rel.c) \cup xc, ToSet(e.rel.a) \cup xa, ToSet(e.rel.b) \cup xb, e.post.gate) IN
+                     x.disc = disc /\ x.np = newP ]
 AllTrue(c) == \A k \in DOMAIN c : c[k]
 Next == /\ l <= Len(Traces[tid].steps) + 1
         /\ LET T == Traces[tid] IN
